@@ -27,6 +27,13 @@ def gen(rng, max_n=7, with_debug=True, with_setup=True, with_tags=True):
         specs[n - 1]["preds"] = sorted(set(specs[n - 1]["preds"]) | {n - 2, n - 3})
         specs[n - 2]["preds"] = sorted(set(specs[n - 2]["preds"]) | {0})
         specs[n - 3]["preds"] = sorted(set(specs[n - 3]["preds"]) | {0})
+    if with_debug and rng.random() < 0.35:
+        # motif: x -> A, x -> B, D*(B), E*(A, D*): E must not be pulled into a run of A alone, nor D without B
+        b0 = len(specs)
+        mk_ = lambda preds, debug: dict(preds=preds, prio=rng.choice([0, 1, 2]), debug=debug, setup=False,   # noqa: E731
+                                        const=False, tag=None, idx=[], ret_idx=False)
+        specs.extend([mk_([], False), mk_([b0], False), mk_([b0], False), mk_([b0 + 2], True), mk_([b0 + 1, b0 + 3], True)])
+        n = len(specs)
     for i, s in enumerate(specs):
         if with_setup and not s["debug"] and rng.random() < 0.2 and all(specs[p]["setup"] for p in s["preds"]):
             s["setup"] = True
@@ -44,7 +51,7 @@ def gen(rng, max_n=7, with_debug=True, with_setup=True, with_tags=True):
             elif r < 0.3:
                 s["tag"] = tuple(rng.sample(pool, 2))
             s["tag_at_call"] = s["tag"] is not None and rng.random() < 0.4
-    return dict(n=n, specs=specs, is_async=rng.random() < 0.2)
+    return dict(n=len(specs), specs=specs, is_async=rng.random() < 0.2)
 
 
 def make_node(i, s, inst):
